@@ -1,4 +1,5 @@
 """C16 - multiple interface files and the command-line scripts compose consistently (Engines F, E)."""
+from .. import rules_flow as RF
 from .. import rules_matlab as RM
 from .. import rules_cli as RC
 
@@ -24,3 +25,4 @@ def run(ctx, rep):
     rep.run(RC.rule_option_plumbing, ctx, rep, "Y3")
     rep.run(RC.rule_source_list_unfiltered, ctx, rep, "Y3")
     rep.run(RC.rule_sibling_scripts, ctx, rep, "Y4")
+    rep.run(RF.rule_locals_defined, ctx, rep, "U1", packages=("scripts/", "gtwrap/pybind_wrapper.py", "gtwrap/matlab_wrapper"), min_functions=3)
